@@ -903,6 +903,15 @@ def suite_two_workers(tier, seed):
             alive = list(range(len(workers)))
 
             async def submit(w, e, visible=True):
+                # somebody asks the other workers for the id before the event exists (a dead /e/<id> link that is followed early):
+                # that must not keep the announcement from being delivered there later
+                if rng.random() < 0.5:
+                    for o in alive:
+                        if o != w:
+                            try:
+                                await workers[o].get_event(e["id"])
+                            except Exception:      # noqa
+                                pass
                 try:
                     _, ok = await workers[w].add_event(e)
                 except Exception as ex:      # noqa
@@ -1719,7 +1728,7 @@ def suite_config_reload(tier, seed):
 # ------------------------------------------------------------------------------------ C05 / C19: publishing while other connections come and go
 def suite_publish_during_churn(tier, seed, backends=("sql",)):
     s = Suite("oracle:publishing-while-connections-churn")
-    s.rule = ("a publisher sends N=150 (quick) / 600 events through web.start_client, waiting for each OK, while three other tasks keep opening "
+    s.rule = ("a publisher sends N=150 (quick) / 400 events through web.start_client, waiting for each OK, while three other tasks keep opening "
               "connections, subscribing (first REQ of a fresh connection) and disconnecting as fast as the event loop lets them, and one subscriber "
               "stays; every EVENT must be answered OK true, the staying subscriber must receive every event exactly once and in order, no handler may "
               "let an exception escape, and no registration may be left at the end; non-trivial = at least 20 connections came and went meanwhile")
@@ -1779,13 +1788,14 @@ def suite_publish_during_churn(tier, seed, backends=("sql",)):
                     c.inbox.put_nowait(None)
                     await asyncio.wait([c.task], timeout=10)
                     churned[0] += 1
+                    await asyncio.sleep(0.001)       # a few hundred connections per second, not as many as the loop can spin
             churners = [asyncio.create_task(churner(k)) for k in range(3)]
             evs = [env.mk_event(i % 3, 1, env.NOW - 5000 + i, [], "cp%d" % i) for i in range(N)]
             oks = []
             for e in evs:
                 n0 = len(P.sent)
                 P.inbox.put_nowait(json.dumps(["EVENT", e]))
-                deadline = asyncio.get_running_loop().time() + 30
+                deadline = asyncio.get_running_loop().time() + 90
                 while len(P.sent) == n0 and asyncio.get_running_loop().time() < deadline and not P.task.done():
                     await asyncio.sleep(0)
                 oks.append(json.loads(P.sent[n0]) if len(P.sent) > n0 else None)
@@ -1808,7 +1818,7 @@ def suite_publish_during_churn(tier, seed, backends=("sql",)):
             await env.close(st)
             sc.close()
     for backend in backends:
-        N = 150 if tier == "quick" else 600
+        N = 150 if tier == "quick" else 400
         obs, churned = env.run(one(backend, N))
         case = {"backend": backend, "events": N, "connections_churned": churned}
         s.case(case, nontrivial=churned >= 20)
@@ -2460,6 +2470,76 @@ def suite_simultaneous_reqs(tier, seed, backends=("sql", "kv")):
                 i, k = wrong[0]
                 s.violate("req-shed-or-truncated", dict(case, first_wrong=i), "%d of %d simultaneous REQs were not answered like the same REQ alone (REQ %d: %d events, %s; alone: %d events, %s)"
                           % (len(wrong), n, i, len(res[i][0]), res[i][1], len(alone[k][0]), alone[k][1]), observed=[(len(r[0]), r[1]) for r in res])
+    return s
+
+
+# ------------------------------------------------------------------------------------ C13 / C19: big answers abandoned mid-stream
+def suite_abandoned_big_queries(tier, seed, backends=("sql",)):
+    s = Suite("oracle:abandoned-big-answers-do-not-starve-later-reqs")
+    s.rule = ("320 matching events are stored; 12 connections (more than num_concurrent_reqs) each send a REQ for all of them and go away at once, "
+              "without reading; afterwards a fresh connection's REQ must be answered (its events and EOSE) within 20 s; non-trivial always")
+    rng = rng_for(seed, "abandon")
+
+    async def one(backend):
+        import falcon
+        from nostr_relay import web
+        from . import relay
+        env.load_config(subscription_limit=10)
+        env.patch_clock()
+        env.patch_web_sleep()
+        sc = env.Scratch()
+        st = await (env.sql_storage(sc) if backend == "sql" else env.kv_storage(sc))
+        try:
+            for i in range(320):
+                await st.add_event(env.mk_event(i % 3, 1, env.NOW - 1000 + i, [], "big %d %d" % (i, rng.randrange(10 ** 6))))
+            await env.quiesce(st)
+
+            async def conn(messages, wait_eose=None, hang_up=True):
+                sent, inbox = [], asyncio.Queue()
+
+                async def ws_send(text):
+                    sent.append(text[:12])
+
+                async def ws_recv():
+                    item = await inbox.get()
+                    if item is None:
+                        raise falcon.WebSocketDisconnected()
+                    return item
+
+                async def ws_close(code=1000):
+                    sent.append("CLOSED")
+                task = asyncio.create_task(web.start_client(st, ws_send, ws_recv, ws_close, logging.getLogger("verif.abandon"), rate_limiter=relay.NullLimiter(),
+                                                            remote_addr="10.8.0.1"))
+                for m in messages:
+                    inbox.put_nowait(json.dumps(m))
+                if wait_eose:
+                    for _ in range(4000):
+                        await asyncio.sleep(0.005)
+                        if any(x.startswith('["EOSE"') for x in sent) or task.done():
+                            break
+                else:
+                    await asyncio.sleep(0)
+                inbox.put_nowait(None)
+                try:
+                    await asyncio.wait_for(task, 15)
+                except Exception:
+                    pass
+                return sent
+            for k in range(12):
+                await conn([["REQ", "all", {"kinds": [1], "limit": 400}]])
+            await asyncio.sleep(0.3)
+            probe = await conn([["REQ", "probe", {"kinds": [1], "limit": 5}]], wait_eose=True)
+            pending = [t for t in asyncio.all_tasks() if not t.done() and "run_query" in repr(t.get_coro())]
+            return {"probe_events": sum(1 for x in probe if x.startswith('["EVENT"')), "probe_eose": any(x.startswith('["EOSE"') for x in probe), "query_tasks_pending": len(pending)}
+        finally:
+            await env.close(st)
+            sc.close()
+    for backend in backends:
+        obs = env.run(one(backend))
+        case = {"backend": backend, "abandoned_connections": 12, "stored_matching": 320}
+        s.case(case, nontrivial=True)
+        if not obs["probe_eose"] or obs["probe_events"] != 5:
+            s.violate("req-met-with-silence", case, "after 12 connections abandoned a big answer, a fresh REQ got %d of 5 events and %s EOSE" % (obs["probe_events"], "an" if obs["probe_eose"] else "no"), observed=obs)
     return s
 
 
@@ -3337,6 +3417,7 @@ def registry():
         "oracle:forged-copy-racing-the-genuine-event": suite_forged_concurrent,
         "oracle:authorization-corner-cases": suite_authz_corners,
         "oracle:simultaneous-reqs-all-answered-in-full": suite_simultaneous_reqs,
+        "oracle:abandoned-big-answers-do-not-starve-later-reqs": suite_abandoned_big_queries,
         "oracle:same-filter-object-same-answer": suite_filter_object_reuse,
         "oracle:registrations-dropped-when-the-peer-vanishes": suite_peer_gone,
         "oracle:limit-cap-plain-subscribe": suite_cap_plain_subscribe,
